@@ -79,8 +79,13 @@ Definition stmt_signalfx : Prop := forall pf pre post ts v ty rate,
   line_to_events pf all_on (pre ++ c_lbr :: render_tags c_eq ts ++ c_rbr :: post ++ c_colon :: sample_text v ty rate)
   = Ok (sem_single pf (pre ++ post) ts v ty rate).
 
+(* For DogStatsD the tag section is parsed after the value: when the value itself does not parse
+   the sample is malformed and its tags are not looked at, so "counted in every syntax" needs a
+   parsable value (or no malformed tag).  The hypothesis is necessary: Proofs/LineSyntaxProofs.v
+   proves [dogstatsd_fails], the converse. *)
 Definition stmt_dogstatsd : Prop := forall pf pre post ts v ty rate,
   hyp_c09 pre post ts v ty rate = true ->
+  (snd (pf v) = false \/ snd (tags_sem ts) = 0) ->
   obs_equiv
     (line_to_events pf all_on ((pre ++ post) ++ c_colon :: sample_text v ty rate ++ c_pipe :: c_hash :: render_tags c_colon ts))
     (Ok (sem_single pf (pre ++ post) ts v ty rate)).
@@ -140,8 +145,10 @@ Definition clean_extagg (name : bytes) (vs : list bytes) (suffix : bytes) : bool
 
 Definition agg_type_of (suffix : bytes) : bytes := fst (fst (cut_byte c_pipe suffix)).
 
+(* a ':' in the suffix outside a "|#" section would make a part line split again: excluded *)
 Definition stmt_extagg_decomposes : Prop := forall pf f name vs suffix,
   clean_extagg name vs suffix = true -> is_agg_type (agg_type_of suffix) = true ->
+  (contains [c_pipe; c_hash] (c_pipe :: suffix) = true \/ free_of [c_colon] suffix = true) ->
   (forall metric labels t0, parse_name_and_tags f name [] = Ok (metric, labels, t0) ->
      contains [c_pipe; c_hash] (c_pipe :: suffix) = true -> labels = []) ->
   let whole := line_to_events pf f (name ++ c_colon :: join [c_colon] vs ++ c_pipe :: suffix) in
